@@ -341,14 +341,15 @@ func runTarjan(c *Ctx) {
 	c.R.Add("TARJAN", "worker|iterates-out-edges", wn, p.Pos(w.Pos()), succOK, "the successors examined are exactly the out-edges of the vertex", fmt.Sprintf("ok=%v", succOK))
 	// T3: root test index == low, then pop until v and record the component
 	rootOK, popOK, recorded := false, false, false
-	core.Instrs(w, func(in ssa.Instruction) {
+	// (the pop-until loop may live in a private step of the worker that is handed the root: `acct.popComponent(v)`)
+	p.RegionInstrs(w, func(in ssa.Instruction) {
 		if b, ok := in.(*ssa.BinOp); ok && b.Op == token.EQL {
 			if (b.X == idxV && b.Y == ssa.Value(low)) || (b.Y == idxV && b.X == ssa.Value(low)) {
 				rootOK = true
 			}
 			// pop() == v
 			for _, pair := range [][2]ssa.Value{{b.X, b.Y}, {b.Y, b.X}} {
-				if cl, ok := pair[0].(*ssa.Call); ok && pair[1] == ssa.Value(vP) && cl.Common().StaticCallee() != nil && p.InTarget(cl.Common().StaticCallee()) && len(cl.Common().Args) == 1 && cl.Common().Args[0] == ssa.Value(acctP) {
+				if cl, ok := pair[0].(*ssa.Call); ok && p.Bind(core.Strip(pair[1])) == ssa.Value(vP) && cl.Common().StaticCallee() != nil && p.InTarget(cl.Common().StaticCallee()) && len(cl.Common().Args) == 1 && p.Bind(core.Strip(cl.Common().Args[0])) == ssa.Value(acctP) {
 					popOK = true
 				}
 			}
